@@ -19,15 +19,17 @@ for d in sorted(glob.glob("/verif/seeded/*/")):
     m = json.load(open(os.path.join(d, "meta.json")))
     c = m.get("confirmed", {})
     rows.append((os.path.basename(d.rstrip("/")), m.get("summary", "").replace("|", "/")[:170],
-                 str(m.get("needs", "")).replace("|", "/")[:120], how(c), how(c.get("recheck"))))
+                 str(m.get("needs", "")).replace("|", "/")[:120], how(c), how(c.get("recheck")),
+                 how(c.get("recheck_seed1"))))
 try:
-    print("| id | change | needs | first run | now |")
-    print("|---|---|---|---|---|")
+    print("| id | change | needs | first run | now (seed 0) | now (seed 1) |")
+    print("|---|---|---|---|---|---|")
     for r in rows:
         print("| " + " | ".join(r) + " |")
     first = sum(1 for r in rows if r[3].startswith("VIOLATION"))
     now = sum(1 for r in rows if r[4].startswith("VIOLATION"))
+    now1 = sum(1 for r in rows if r[5].startswith("VIOLATION"))
     print(f"\n{len(rows)} seeded changes; detected on first run: {first}; detected by the current checks: {now}"
-          f" (not yet re-evaluated: {sum(1 for r in rows if r[4] == '-')}).")
+          f" at seed 0, {now1} at seed 1 (not re-evaluated: {sum(1 for r in rows if r[4] == '-')}).")
 except BrokenPipeError:
     sys.exit(0)
